@@ -54,6 +54,51 @@ def handle (op : String) (req : Json) : R Json := do
       pure (jObj [("shape", jList jNat shp),
                   ("model", jList (jCell sq t) cells.flatten), ("spec", jList (jSpec sq t) spec)])
     | _, _ => throw "only 1-D and 2-D"
+  | "c13.at" =>
+    -- the same model and specification for a large image: the specification only at the requested pixels
+    -- (row-major flat indices); the (whole-array) mechanism is reported at every pixel (`model = "all"`)
+    -- or left unevaluated (`model = "no"`)
+    let kind ← getStr req "kind"
+    let shape ← getList asNat req "shape"
+    let data ← getList asRat req "data"
+    let block ← getList asNat req "block"
+    let t ← fld req "threshold" >>= asOpt asRat
+    let pixels ← getList asNat req "pixels"
+    let withModel ← match (← getStr req "model") with
+      | "all" => pure true
+      | "no" => pure false
+      | m => throw s!"bad model mode {m}"
+    if data.length ≠ shape.foldl (· * ·) 1 then throw "data/shape mismatch"
+    if block.length ≠ shape.length then throw "block/shape mismatch"
+    if pixels.any (· ≥ data.length) then throw "pixel out of range"
+    let sq ← match kind with
+      | "mean" => pure true
+      | "median" => pure false
+      | _ => throw s!"bad kind {kind}"
+    match shape, block with
+    | [_], [b] =>
+      let spec := pixels.map (fun i => if sq then specMean1 b data i else specMedian1 b data i)
+      let (shp, model) := if withModel then
+          let cells := if sq then meanCells1 b data else medianCells1 b data
+          (jList jNat [cells.length], jList (jCell sq t) cells)
+        else (Json.null, Json.null)
+      pure (jObj [("shape", shp), ("model", model), ("spec", jList (jSpec sq t) spec)])
+    | [n0, n1], [b0, b1] =>
+      if n1 = 0 then throw "empty rows"
+      let x := chunk n1 data n0
+      let spec := pixels.map (fun k =>
+        if sq then specMean2 b0 b1 x (k / n1) (k % n1) else specMedian2 b0 b1 x (k / n1) (k % n1))
+      let (shp, model) ← if withModel then do
+          let cells := if sq then meanCells2 b0 b1 x else medianCells2 b0 b1 x
+          let rowlens := cells.map (·.length)
+          let shp := match rowlens with
+            | [] => [0, 0]
+            | l :: _ => [cells.length, l]
+          if rowlens.any (· != shp.getD 1 0) then throw "ragged model output"
+          pure (jList jNat shp, jList (jCell sq t) cells.flatten)
+        else pure (Json.null, Json.null)
+      pure (jObj [("shape", shp), ("model", model), ("spec", jList (jSpec sq t) spec)])
+    | _, _ => throw "only 1-D and 2-D"
   | _ => throw s!"unknown op {op}"
 
 end PewDriver.C13
